@@ -728,6 +728,51 @@ class AnyObj:
 
 
 # --------------------------------------------------------------------------
+_LIGHT_CACHE = {}
+
+
+def is_light(e):
+    """no uninterpreted application of arity > 0, no product/quotient of two
+    non-numerals, no quantifier: decidable by linear arithmetic alone"""
+    k = e.get_id()
+    r = _LIGHT_CACHE.get(k)
+    if r is not None and z3.eq(r[0], e):
+        return r[1]
+    v = _is_light(e)
+    if len(_LIGHT_CACHE) > 200000:
+        _LIGHT_CACHE.clear()
+    _LIGHT_CACHE[k] = (e, v)
+    return v
+
+
+def _is_light(e):
+    stack = [e]
+    seen = set()
+    while stack:
+        x = stack.pop()
+        i = x.get_id()
+        if i in seen:
+            continue
+        seen.add(i)
+        if z3.is_quantifier(x):
+            return False
+        if not z3.is_app(x):
+            continue
+        d = x.decl()
+        kd = d.kind()
+        ch = x.children()
+        if kd == z3.Z3_OP_UNINTERPRETED and ch:
+            return False
+        if kd == z3.Z3_OP_MUL:
+            if sum(0 if (z3.is_rational_value(c) or z3.is_int_value(c)) else 1 for c in ch) > 1:
+                return False
+        if kd in (z3.Z3_OP_DIV, z3.Z3_OP_IDIV, z3.Z3_OP_MOD, z3.Z3_OP_POWER):
+            if not (z3.is_rational_value(ch[1]) or z3.is_int_value(ch[1])):
+                return False
+        stack.extend(ch)
+    return True
+
+
 class Obligation:
     __slots__ = ("name", "goal", "hyps", "facts", "meta", "kind", "verdict",
                  "backend", "time", "model", "note", "reveal")
@@ -770,15 +815,38 @@ class Ctx:
         self.obls = []
         self.events = []
         self.fresh_n = 0
-        self.solver = z3.Solver()
-        self.solver.set("timeout", self.feas_timeout_ms)
+        self.solver = None          # full solver, built lazily
+        self.light = z3.Solver()    # only "light" constraints (linear, no uninterpreted applications)
+        self.light.set("timeout", self.feas_timeout_ms)
+        self._all = []              # every constraint so far (for the lazy full solver)
         self.site = ""
 
+    def _full(self):
+        if self.solver is None:
+            self.solver = z3.Solver()
+            self.solver.set("timeout", self.feas_timeout_ms)
+            for c in self._all:
+                self.solver.add(c)
+            for (e, level, _s) in self.facts.values():
+                if level == "sign":
+                    self.solver.add(e)
+        return self.solver
+
+    def _add(self, c):
+        self._all.append(c)
+        if is_light(c):
+            self.light.add(c)
+        if self.solver is not None:
+            self.solver.add(c)
+
     def feasible(self, e):
-        self.solver.push()
-        self.solver.add(e)
-        r = self.solver.check()
-        self.solver.pop()
+        """May over-approximate (answer True for an infeasible branch) - sound:
+        an infeasible path only yields vacuous obligations."""
+        s = self.light if is_light(e) else self._full()
+        s.push()
+        s.add(e)
+        r = s.check()
+        s.pop()
         return r != z3.unsat
 
     def decide(self, e):
@@ -805,20 +873,20 @@ class Ctx:
         self.taken.append(d)
         c = e if d else z3.Not(e)
         self.pc.append(c)
-        self.solver.add(c)
+        self._add(c)
         return d
 
     def assume(self, e):
         """Add a hypothesis (precondition, stub postcondition)."""
         e = _b(e) if not z3.is_bool(e) else e
         self.assumptions.append(e)
-        self.solver.add(e)
+        self._add(e)
 
     def fact(self, key, e, level, subject):
         k = (key[0], key[1].get_id())
         if k not in self.facts:
             self.facts[k] = (e, level, subject)
-            if level == "sign":
+            if level == "sign" and self.solver is not None:
                 self.solver.add(e)
 
     # ---- symbols
